@@ -14,6 +14,9 @@
                                       -> G <id> size=<ZSTD_decodingBufferSize_internal> starts=<outStart after each block, -1 = refused>
    C <id> <asis|fixed> <ops>          ops = ;-separated  i<addr>:<n> (ZSTD_insertBlock) | d<addr>:<cap>:<r> (ZSTD_decompressBlock ok) | e<addr>:<cap> (error)
                                       -> C <id> <previousDstEnd,prefixStart,virtualStart,dictEnd; after each call>
+   T <id> <asis|fixed> <ctx> <ops>    ops = ;-separated  b<c> (ZSTD_decompressBegin[_usingDict]) | u<c>:<ddict> (Begin_usingDDict) | k<c>:<4 letters r|d|p> (block: repeat /
+                                      described / predefined for LL, ML, OF, HUF) | c<dst>:<src> (ZSTD_copyDCtx)
+                                      -> T <id> <4 letters for LLTptr, MLTptr, OFTptr, HUFptr of context ctx: o own struct, s another context's struct, x elsewhere> | T <id> none
    UH <id> <srchex>                   R's reader of a Huffman tree description (table log limit 12 = HUF_TABLELOG_MAX)
                                       -> UH <id> OK used=<n> log=<n> w=<weight,...>  |  UH <id> ERR <class>/<site>
    UN <id> <maxSymbolValue> <srchex>  R's reader of an FSE table description (accuracy log limit 15 = FSE_TABLELOG_ABSOLUTE_MAX)
@@ -151,6 +154,26 @@ let continuity id mode ops =
   Printf.printf "C %s %s\n" id
     (String.concat "" (List.map (fun s -> Printf.sprintf "%d,%d,%d,%d;" (int_of_z s.c_prev) (int_of_z s.c_prefix) (int_of_z s.c_virt) (int_of_z s.c_dictEnd)) tr))
 
+let ctxptrs id mode ctx ops =
+  let fixed = (mode = "fixed") in
+  let ni s = n_of_int (int_of_string s) in
+  let md = function 'r' -> Repeat | 'd' -> Described | _ -> Predefined in
+  let parse o =
+    let a = String.split_on_char ':' (String.sub o 1 (String.length o - 1)) in
+    match o.[0], a with
+    | 'b', [c] -> Begin (ni c)
+    | 'u', [c; d] -> BeginDDict (ni c, ni d)
+    | 'k', [c; m] -> Block (ni c, md m.[0], md m.[1], md m.[2], md m.[3])
+    | 'c', [d; s] -> Copy (ni d, ni s)
+    | _ -> failwith "badop" in
+  let ops = List.map parse (List.filter (fun o -> o <> "") (String.split_on_char ';' ops)) in
+  let q = ni ctx in
+  match prun fixed ops q with
+  | None -> Printf.printf "T %s none\n" id
+  | Some (((a, b), e), h) ->
+    let l = function Own c -> if c = q then "o" else "s" | Default -> "x" | InDDict _ -> "x" in
+    Printf.printf "T %s %s%s%s%s\n" id (l a) (l b) (l e) (l h)
+
 let unit_huf id hx =
   match read_huf_weights (n_of_int 12) (bytes_of_hex hx) with
   | Ok ((ws, log), used) ->
@@ -176,6 +199,7 @@ let () =
        | "P" :: id :: kind :: rest -> placement id kind rest
        | ["G"; id; w; fcs; b; rs] -> ringtrace id w fcs b rs
        | ["C"; id; mode; ops] -> continuity id mode ops
+       | ["T"; id; mode; ctx; ops] -> ctxptrs id mode ctx ops
        | ["UH"; id; hx] -> unit_huf id hx
        | ["UN"; id; msv; hx] -> unit_ncount id msv hx
        | _ -> if line <> "" then Printf.printf "? BADLINE\n");
